@@ -635,11 +635,16 @@ def pool_values(F, rng):
         atoms([S(s) for s in yaml_strings()], "string-atom")
         atoms(numbers(True) + [None, True, False, [], Obj([])] + [Str(b, False) for b in BYTES_ATOMS] +
               [Str(b, True) for b in INVALID_TEXT], "scalar-atom")
+        shapes([list(range(n)) for n in (1024, 1025, 3000)] + [Obj([(S("k%d" % i), i) for i in range(1025)])])
     elif F == "cbor":
         atoms(numbers(True) + [None, True, False, [], Obj([])] + [Str(b, False) for b in BYTES_ATOMS] +
               [Str(b, True) for b in INVALID_TEXT] +
               [S(s) for s in YAML_PHRASES + ["a" * 23, "a" * 24, "a" * 255, "a" * 256, "a" * 65535, "a" * 65536]] +
               [[0] * n for n in (23, 24, 255, 256)] + [Obj([(i, i) for i in range(n)]) for n in (23, 24, 256)], "atom")
+        # container sizes around the reader's pre-allocation cap and the 16-bit length head
+        shapes([list(range(n)) for n in (1023, 1024, 1025, 3000)] +
+               [Obj([(i, i) for i in range(n)]) for n in (1024, 1025, 2500)] +
+               [[1, list(range(2000)), Obj([(S("k"), list(range(1025)))])]])
     elif F == "toml":
         atoms([S(s) for s in TOML_STRS], "string-atom")
         atoms(numbers(True) + [True, False, [], Obj([]), None, Str(b"a", False), Str(b"\xff", True)], "scalar-atom")
@@ -964,10 +969,29 @@ def str_candidates(s):
                 yield S(t[:i] + "a" + t[i + 1:])
 
 
+LONG = 48
+
+
 def sub_candidates(F, v):
     """strictly smaller values, most aggressive first"""
     wrap = {"yaml": lambda x: [[x]], "cbor": lambda x: [[x]], "toml": lambda x: [Obj([(S("k"), x)])],
             "csv": lambda x: [[x]], "tsv": lambda x: [[x]]}[F]
+    if isinstance(v, (list, Obj)) and len(v if isinstance(v, list) else v.items) > LONG:
+        # long containers: remove aligned blocks (halves, quarters, ...) instead of single elements,
+        # so that a round stays linear in the size of the value
+        items = v if isinstance(v, list) else v.items
+        mk = (lambda xs: xs) if isinstance(v, list) else Obj
+        n = len(items)
+        for x in items[:4]:
+            yield x if isinstance(v, list) else x[1]
+        size = n // 2
+        while size >= max(1, n // 64):
+            for lo in range(0, n, size):
+                yield mk(items[:lo] + items[lo + size:])
+            size //= 2
+        yield mk(items[:n - 1])
+        yield mk(items[1:])
+        return
     if isinstance(v, list):
         for x in v:
             yield x
@@ -1073,7 +1097,7 @@ def canonical(F, what, v):
         return "%s:%s:%s:%s" % (F, what, rep(x), show(x, 120))
     if len(uniq) <= 4:
         return "%s:%s:atoms:%s" % (F, what, ",".join(compact(x) for x in uniq))
-    return "%s:%s:value:%s" % (F, what, show(v, 160))
+    return "%s:%s:value(%d nodes):%s" % (F, what, measure(v)[0], show(v, 120))
 
 
 # =========================================================================================
